@@ -12,7 +12,7 @@ def run(chk, tier):
                 'produce one element per stored element; K6: tuple slot i is converted from slot i; leaves: lent = borrow of the stored box, '
                 'static = the stored reference, owned = the stored closure\'s result; K7: each slot of tuple/Result kinds has its own type '
                 'parameter, so slots cannot be transposed without a type error.')
-    for cfg in configs(tier, thorough=('std', 'mocks', 'nostd-spin', 'nostd')):
+    for cfg in configs(tier, quick=('std', 'nostd'), thorough=('std', 'mocks', 'nostd-spin', 'nostd')):
         F = load(chk, cfg)
         O.variant_maps(chk, F, 'R17.1', cfg)
         O.vec_traversals(chk, F, 'R17.2', cfg)
